@@ -1,33 +1,55 @@
 """C01 -- Concurrent commits are serializable: no acknowledged write lost or duplicated.
 
 Proof      : coq/Props/C01.v over Model/Commit.v (interleaving machine of the OCC commit protocol, any number
-             of committers, any clock): linear chain, each acknowledged commit reflected exactly once in
+             of committers, any clock): linear version chain, each acknowledged commit reflected exactly once in
              pointer order, raised commits not reflected -- for storage with real mutual exclusion (`lockkind = Excl`
-             or conditional writes).  What `Excl` MEANS on a local filesystem is the layer below, Model/ProcLock.v:
-             FileLock handles (one per Table handle) placed in OS processes by an arbitrary topology, the descriptor
-             table of the lock file and the kernel's advisory lock under the ownership discipline of the primitive the
-             source calls (Gen/GenFileLock.v, regenerated: flock = owned by the open file description).  Proved for
-             every topology and every event list: at most one handle believes it holds, the handle's flag (the fence of
-             the commit point) is the kernel's owner, every event moves that view the way Commit.v's `step` moves
-             `w_lock`, and nothing another handle does -- in the holder's process or elsewhere -- drops the holder's lock
-             (C01_lock_exclusive_any_topology, C01_lock_refines_excl, C01_lock_not_dropped_by_others,
-             C01_lock_skeleton_regenerated); refutation witnesses show how process-owned locks (POSIX record locks) break
-             it as soon as one process has two handles.
+             or conditional writes).  Commit.v holds a table's content as the list of applied operation ids; what that
+             content MEANS is C15's Model/Meta.v, and the result is read through it (Model/CommitMeta.v `table_of`, for every
+             interpretation of the committers as Meta operations): C01_serializable_tables (the table the pointer names =
+             the initial table with exactly the flipped commits' mutators applied by Meta.step in pointer order) and
+             C01_snapshot_chain (that table is well-formed w.r.t. the ghost history in pointer order -- parents are retained
+             true ancestors -- and its snapshots' sequence numbers strictly increase in snapshot-log order; hypothesis on
+             the interpretation only: distinct committers draw distinct positive snapshot ids / file names).  The retry
+             budget of `step` is the regenerated one (C01_conflict_retried: the retry step is read off gen_tx_on, and with
+             budget gen_max_retries a conflict is reported after exactly that many attempts).
+             ASSUMPTION made explicit: "a refused conditional write (412) was not applied" -- Model/CommitLate.v adds the
+             excluded event (write applied, writer told 412: an HTTP layer re-sending a request whose first copy landed);
+             C01_conflict_not_reflected_partial (holds without the event) / C01_conflict_not_reflected_refuted (false with it).
+             What `Excl` MEANS on a local filesystem is the layer below, Model/ProcLock.v:
+             FileLock handles (one per Table handle) placed in OS processes by an arbitrary topology, the table of references
+             to open descriptions of the lock file and the kernel's advisory lock under the ownership discipline of the
+             primitive the source calls (Gen/GenFileLock.v, regenerated: flock = owned by the open file description), and
+             processes created by FORK (`LFork`: the worker's handle is a copy of the parent's and INHERITS its descriptors =
+             two handles sharing one open file description; an attempt through any reference re-locks, an unlock through
+             any reference drops the lock, a close drops it only with the last reference).  Proved for every topology and
+             every event list whose forks copy idle handles (`forks_quiescent`, spelled out in every statement): at most
+             one handle believes it holds, the handle's flag (the fence of the commit point) is the kernel's owner, every
+             event moves that view the way Commit.v's `step` moves `w_lock`, nothing another handle does -- in the holder's
+             process, in another, a forked twin -- drops the holder's lock, and a quiescent fork inherits NOTHING because an
+             idle handle of the regenerated program holds no descriptor (C01_lock_exclusive_any_topology,
+             C01_lock_refines_excl, C01_lock_not_dropped_by_others, C01_fork_inherits_nothing,
+             C01_lock_skeleton_regenerated); refutation witnesses: process-owned locks (POSIX record locks) with two handles
+             in one process; a fork while the copied handle holds (fork(2) itself); a handle that KEEPS its descriptor
+             across acquisitions (Model/ProcLockKeep.v) forked while idle -- parent and worker both hold.
 Tie        : trace validation.  Real Table / MetadataManager / FileLock code runs under harness/lib/sched.py
              (deterministic scheduler, protocol-level yield points, virtual clock) with the committers as threads of one
-             process AND placed in several OS processes (harness/lib/procsched.py: worker processes stepped over pipes at
+             process, placed in several SPAWNED OS processes (harness/lib/procsched.py: worker processes stepped over pipes at
              the same yield points, one merged log; a worker can be SIGKILLed inside its critical section = the machines'
-             ECrash / LKill); the observed storage log is projected onto the model's event alphabet
-             and `Commit.run_strict` must accept it event by event (each event carries what the code read / decided); final
-             pointer, flip order and outcomes must agree.  A storage call the projection does not know is a failure.
+             ECrash / LKill), and in process FAMILIES: a parent process opens the table, uses its handle once (the metadata
+             lock is taken and released), then FORKS workers which commit through the handle they inherited -- parent and
+             worker, two workers, two threads of a worker next to another worker.  The observed storage log is projected onto
+             the model's event alphabet and `Commit.run_strict` must accept it event by event (each event carries what the code
+             read / decided); final pointer, flip order and outcomes must agree.  A storage call the projection does not know
+             is a failure.
              Lock layer: every primitive on the lock file (open, non-blocking flock, unlock, close), per FileLock handle
-             and process, with the REAL kernel's answer, must be accepted by `ProcLock.lrun_strict` under the regenerated
-             discipline and the run's topology (model kernel = real kernel, event by event), all descriptors closed and
-             the lock free at the end, and the protocol-level lock answers must be the kernel's.  A locking primitive
-             outside that vocabulary (lockf, fcntl, unlink of the lock file ...) is a correspondence failure.
+             and process, with the REAL kernel's answer, and every fork (one LFork per handle the parent has used), must be
+             accepted by `ProcLock.lrun_strict` under the regenerated discipline and the run's topology (model kernel = real
+             kernel, event by event), all descriptors closed and the lock free at the end, and the protocol-level lock
+             answers must be the kernel's.  A locking primitive outside that vocabulary (lockf, fcntl, unlink of the lock
+             file, dup ...) is a correspondence failure.
 Oracle     : implementation-only serializability oracle: the final table (independent reader) must equal
              the serial replay, in pointer-flip order, of exactly the commits that reported success -- on every schedule
-             executed, in-process and across processes.
+             executed, in-process, across spawned processes and across forked families.
 """
 from __future__ import annotations
 
@@ -39,30 +61,48 @@ from harness.lib import coqbuild, procsched as PS, protocol as P, sched as S
 from harness.lib.coqio import Some
 
 LEVEL = "proof"
-THEOREMS = ["C01_serializable", "C01_acked_exactly_once", "C01_raised_not_reflected", "C01_chain_linear",
+THEOREMS = ["C01_serializable", "C01_serializable_tables", "C01_acked_exactly_once", "C01_raised_not_reflected",
+            "C01_conflict_not_reflected_partial", "C01_conflict_not_reflected_refuted",
+            "C01_version_chain_linear", "C01_snapshot_chain",
             "C01_skeleton_regenerated", "C01_conflict_retried",
-            "C01_lock_exclusive_any_topology", "C01_lock_refines_excl", "C01_lock_not_dropped_by_others", "C01_lock_skeleton_regenerated"]
-REQ = ["DS.Model.Commit", "DS.Gen.GenFileLock", "DS.Model.ProcLock"]
+            "C01_lock_exclusive_any_topology", "C01_lock_refines_excl", "C01_lock_not_dropped_by_others", "C01_fork_inherits_nothing",
+            "C01_lock_skeleton_regenerated"]
+REQ = ["DS.Gen.GenCommit", "DS.Model.Commit", "DS.Gen.GenFileLock", "DS.Model.ProcLock"]
 MANIFEST_ENTRY = {
     "level_text": "Serializability of the OCC commit protocol proved in Coq (C01_serializable and companions) by an inductive "
                   "invariant over every schedule of any number of committers with any clock readings, for exclusive-lock and CAS "
-                  "storage; the exclusive lock of a local table is itself modelled and proved (Model/ProcLock.v: FileLock handles "
-                  "in OS processes under an arbitrary process topology, descriptor table and kernel lock with the ownership "
+                  "storage, and read through C15's Model/Meta.v: the table the pointer names is the initial table with exactly the "
+                  "flipped commits' mutators applied in pointer order (C01_serializable_tables), it is well-formed and its snapshots' "
+                  "sequence numbers strictly increase in pointer order (C01_snapshot_chain = C01 composed with C15_wf_invariant / "
+                  "C15_seq_in_log_order; hypothesis: distinct committers draw distinct snapshot ids and file names); the exclusive lock "
+                  "of a local table is itself modelled and proved (Model/ProcLock.v: FileLock handles "
+                  "in OS processes under an arbitrary process topology including workers created by fork() that inherit the parent's "
+                  "handle and descriptors, reference table of open descriptions and kernel lock with the ownership "
                   "discipline of the primitive the source calls; C01_lock_exclusive_any_topology, C01_lock_refines_excl, "
-                  "C01_lock_not_dropped_by_others); the model is tied to the code by trace validation: real commits run under a "
-                  "deterministic scheduler at storage-operation granularity, as threads of one process and distributed over "
-                  "several OS processes (including the death of a process inside its critical section), and every observed protocol event and every primitive on the lock file (with the real "
-                  "kernel's answer) must be accepted by the models' strict runs; the validation kernel, the stamp rule, the action "
-                  "skeleton of MetadataManager.commit, the retry / handler tables (translator/gen_commit.py) and FileLock's "
-                  "primitive skeleton and lock discipline (translator/gen_filelock.py) are regenerated from the source and the "
+                  "C01_lock_not_dropped_by_others, C01_fork_inherits_nothing -- for every event list whose forks copy idle handles); "
+                  "the model is tied to the code by trace validation: real commits run under a "
+                  "deterministic scheduler at storage-operation granularity, as threads of one process, distributed over "
+                  "several spawned OS processes (including the death of a process inside its critical section) and in process families "
+                  "(a parent that has used its handle forks workers that commit through the inherited handle), and every observed "
+                  "protocol event, every primitive on the lock file (with the real kernel's answer) and every fork must be accepted by "
+                  "the models' strict runs; the validation kernel, the stamp rule, the action "
+                  "skeleton of MetadataManager.commit, the retry / handler tables and the retry budget (translator/gen_commit.py) and "
+                  "FileLock's primitive skeleton and lock discipline (translator/gen_filelock.py) are regenerated from the source and the "
                   "proofs re-run against them; an implementation-only serializability oracle judges every explored schedule",
     "level_note": "trusted: Coq kernel; translator/gen_commit.py, gen_filelock.py; projection of the storage log and of the lock-file "
                   "primitives onto model events (harness/lib/protocol.py, props/c01.py project_locks); the kernel's flock semantics "
-                  "as written in Model/ProcLock.v (grants / drops), compared with the real kernel's answers on every run; metadata "
-                  "files are write-once so pointer read + file read are one step; table content abstracted to the list of applied "
-                  "operations (their meaning is C15); descriptors are not duplicated or inherited (the library never forks or dups)",
-    "technique": "Coq invariant proofs over two interleaving machines (commit protocol; lock layer under arbitrary process topologies) with "
-                 "translator-regenerated kernels and skeletons + trace validation of real executions, in-process and multi-process",
+                  "as written in Model/ProcLock.v (grants / drops / shared descriptions after fork), compared with the real kernel's "
+                  "answers on every run; metadata files are write-once so pointer read + file read are one step; table content is the "
+                  "list of applied operations, interpreted by Model/CommitMeta.v table_of (that the bytes a committer writes are Meta.step "
+                  "of its base's is C15's correspondence; the clock reading of an event is not identified with the `tu` of the interpreted "
+                  "operation); partial / assumptions spelled out in the statements: forks copy idle handles (forks_quiescent; refuted "
+                  "without it: C01_fork_while_holding_not_exclusive -- fork(2) itself); a refused conditional pointer write was not "
+                  "applied (C01_conflict_not_reflected_partial, hypothesis no_late; refuted without it: C01_conflict_not_reflected_refuted "
+                  "-- an HTTP client re-sending an If-Match PUT whose first copy landed; not produced by the harness); descriptors are "
+                  "not dup()ed (a dup on the lock file is a correspondence failure)",
+    "technique": "Coq invariant proofs over two interleaving machines (commit protocol; lock layer under arbitrary process topologies with "
+                 "fork / descriptor inheritance), composition with the metadata model of C15, "
+                 "translator-regenerated kernels and skeletons + trace validation of real executions, in-process, multi-process and across fork()",
     "design_ref": "DESIGN.md section 5 C01",
 }
 
@@ -209,6 +249,26 @@ def release_window_scripts(n: int, stops: List[str]) -> List[List[Tuple[str, str
     return out
 
 
+# process FAMILIES: a parent process opens the table, uses its handle (one commit: the metadata lock is taken and released),
+# then forks workers that go on using the handle they inherited (harness/lib/procsched.py, case["fork"])
+FORK_FAMILIES = {
+    2: [{"root": [0], "children": [[1]], "handles": "shared"},            # the parent and one forked worker
+        {"root": [], "children": [[0], [1]], "handles": "shared"},        # two forked workers (a pre-forked pool)
+        {"root": [0], "children": [[1]], "handles": "own"}],              # every committer a handle of its own, all inherited
+    3: [{"root": [0], "children": [[1], [2]], "handles": "shared"},
+        {"root": [], "children": [[0, 1], [2]], "handles": "shared"}],    # two threads of one worker + another worker
+}
+
+
+def _where(case: Dict[str, Any]) -> str:
+    if case.get("fork"):
+        f = case["fork"]
+        return f"fork{len(f.get('root', []))}+" + "+".join(str(len(g)) for g in f["children"]) + f"-{f.get('handles', 'shared')}:"
+    if case.get("procs") is not None:
+        return "procs" + "+".join(str(len(g)) for g in case["procs"]) + ":"
+    return ""
+
+
 PROC_TOPOLOGIES = {
     2: [[[0], [1]], [[], [0, 1]]],
     3: [[[0, 1], [2]], [[0], [1, 2]], [[0], [1], [2]]],
@@ -228,6 +288,16 @@ def project_locks(res: P.CaseResult) -> Tuple[str, int]:
     evs: List[str] = []
     opens = 0
     for i, e in enumerate(res.locklog):
+        if e["prim"] == "fork":
+            # the worker inherits every FileLock handle of its parent (object and open descriptors): one twin per handle the
+            # parent has used so far, in the child's process
+            cp = pidx.setdefault(e["child"], len(pidx))
+            for (ppid, hobj), h in list(handles.items()):
+                if ppid == e["pid"]:
+                    handles[(e["child"], hobj)] = len(handles)
+                    procs.append(cp)
+                    evs.append(f"LFork {h} {handles[(e['child'], hobj)]}")
+            continue
         if e["prim"] == "kill":
             if e["pid"] in pidx:                   # a process none of whose handles ever touched the lock file holds nothing
                 evs.append(f"LKill {pidx[e['pid']]}")
@@ -296,7 +366,7 @@ def lock_attempts_agree(res: P.CaseResult) -> Optional[str]:
         if e["op"] == "LockTry" and e["result"] is not None:
             proto.setdefault(e["actor"], []).append(e["result"] == "ok")
     for e in res.locklog:
-        if e["prim"] == "trylock":
+        if e["prim"] == "trylock" and e["actor"] != "setup":        # a family parent's use of its handle before the fork
             layer.setdefault(e["actor"], []).append(bool(e["ok"]))
     if proto != layer:
         return f"protocol-level lock attempts {proto} != kernel answers at the lock layer {layer}"
@@ -340,13 +410,14 @@ def _fix_case(case: Dict[str, Any]) -> Dict[str, Any]:
     return c
 
 
-def kind_of(op: Dict[str, Any], init_cur_model: int = 1) -> Tuple[str, int]:
-    """Gallina curk for the operation and its retry budget."""
+def kind_of(op: Dict[str, Any], init_cur_model: int = 1) -> Tuple[str, Any]:
+    """Gallina curk for the operation and its retry budget (Transaction.commit: the REGENERATED bound gen_max_retries;
+    delete_snapshot commits once)."""
     k = op["kind"]
     if k in ("append", "delete_files"):
-        return "KFresh", 50
+        return "KFresh", "gen_max_retries"
     if k == "expire":
-        return "KKeep", 50
+        return "KKeep", "gen_max_retries"
     if k == "delete_snapshot":
         if op.get("which") == "current":
             return f"(KCond {init_cur_model} 0)", 1
@@ -357,7 +428,7 @@ def kind_of(op: Dict[str, Any], init_cur_model: int = 1) -> Tuple[str, int]:
 def model_expr(case: Dict[str, Any], res: P.CaseResult, events: List[Tuple[int, str]]) -> str:
     n = len(case["ops"])
     kinds = " ".join(f"| {i}%nat => {kind_of(op)[0]}" for i, op in enumerate(case["ops"]))
-    maxrs = " ".join(f"| {i}%nat => {kind_of(op)[1]}%nat" for i, op in enumerate(case["ops"]))
+    maxrs = " ".join(f"| {i}%nat => ({kind_of(op)[1]})%nat" for i, op in enumerate(case["ops"]))
     lu0 = res.initial["meta"]["last_updated_ms"]
     cfgs = "{| cas := %s; lockkind := %s |}" % ("true" if case.get("backend") == "s3cas" else "false",
                                                "GrantAll" if case.get("lock") == "grant_all" else
@@ -476,10 +547,11 @@ def check_runs(ctx, name: str, runs: List[Tuple[Dict[str, Any], Any, P.CaseResul
     bad = []
     lbad = []
     for case, dev, res in runs:
-        ctx.count(1, (name, repr(case["ops"]), case.get("clock"), case.get("topology"), repr(case.get("procs")), tuple(res.schedule)))
+        ctx.count(1, (name, repr(case["ops"]), case.get("clock"), case.get("topology"), repr(case.get("procs")), repr(case.get("fork")),
+                      tuple(res.schedule)))
         why = serial_oracle(case, res)
         if why:
-            where = "procs" + "+".join(str(len(g)) for g in case["procs"]) + ":" if case.get("procs") is not None else ""
+            where = _where(case)
             ctx.violation(f"not-serializable:{where}{case.get('clock', 'tick')}:{'+'.join(o['kind'] + ('-' + o['which'] if 'which' in o else '') for o in case['ops'])}",
                           why, {"case": _case_json(case), "deviations": list(dev), "schedule": res.schedule, "outcomes": res.outcomes})
         # ---- lock layer (local filesystem): the primitives on the lock file against Model/ProcLock.v
@@ -560,14 +632,29 @@ def run(ctx) -> None:
                 "handle, shared or separate handles per process} with contention scripts (one committer parked inside its critical "
                 "section while every other tries the lock, all placements and orders), release-window scripts at the granularity of "
                 "every lock-file primitive (one committer between the unlock and the close of its release while another takes the "
-                "lock), a process killed inside its critical section, bounded-preemption enumeration and random schedules; "
+                "lock), a process killed inside its critical section, process FAMILIES (a parent that has used its handle forks "
+                "1-2 workers; parent + worker, two workers, two threads of one worker + another worker; one inherited handle shared by "
+                "the family or one handle per committer) with contention scripts and bounded-preemption enumeration, "
+                "bounded-preemption enumeration and random schedules over the spawned placements; "
                 "distinct = distinct executed schedule per case")
     ctx.trusted_base += [
         "harness/lib/sched.py + protocol.py: deterministic scheduler, projection of the storage log onto Model/Commit.v events",
-        "harness/lib/procsched.py: worker processes stepped over pipes (same yield points, merged log)",
+        "harness/lib/procsched.py: worker processes stepped over pipes (same yield points, merged log); process families created by os.fork() "
+        "from a clean fork-server process, requests relayed down the family's pipes",
         "kernel flock semantics as modelled in Model/ProcLock.v (compared with the real kernel's answers on every run); write-once metadata files",
     ]
-    ctx.assumptions += ["pointer intact (C10 covers damaged pointers)", "no garbage collection concurrent with commits (C06)"]
+    ctx.assumptions += ["pointer intact (C10 covers damaged pointers)", "no garbage collection concurrent with commits (C06)",
+                        "a refused conditional pointer write (412 Precondition Failed) was NOT applied: the object store answers each request once "
+                        "and the HTTP client does not re-send an If-Match PUT whose first copy landed (botocore's default retry policy can, after a "
+                        "connection error / 5xx on the response); with such a re-send the commit is classified a clean conflict and its metadata file "
+                        "discarded while the pointer names it -- Model/CommitLate.v, C01_conflict_not_reflected_partial / _refuted; the runs of this check do "
+                        "not produce it (checked by hand with the fake store answering 412 after applying the PUT: Transaction.commit's retry re-reads, "
+                        "recovers the previous version by the pointer-recovery scan of C10 and commits again -- acknowledged once, reflected once; a "
+                        "budget-1 delete_snapshot raises and leaves the pointer naming the discarded file, which readers recover from by the same scan: "
+                        "not reflected, but only through C10's recovery)",
+                        "workers are forked while the parent's table handle is idle (between commits), not from inside a commit "
+                        "(forks_quiescent in the lock-layer theorems; C01_fork_while_holding_not_exclusive is the refutation without it)",
+                        "C01_snapshot_chain: distinct committers draw distinct positive snapshot ids and metadata-file names (uuid4)"]
     ctx.proofs(THEOREMS, gen_files=["GenCommit.v", "GenFileLock.v"])
     ctx.allow_axioms([])
     quick = ctx.tier == "quick"
@@ -646,6 +733,26 @@ def run(ctx) -> None:
                 case = {"ops": hand[1], "clock": "tick", "topology": "separate", "procs": procs, "kill": {"actor": victim, "stop": stop}}
                 res = _run(ctx, case, dev_chooser({}), tag="c01k")
                 runs.append((case, [], res))
+        # 5e. process FAMILIES: the parent has used its handle, then forks its workers; parent and workers (or the workers among
+        #      themselves) commit through the handle they share by inheritance.  Contention scripts: X parked inside its critical
+        #      section (before its metadata write / pointer flip), every other committer of the family then runs as far as it
+        #      gets, in every order; plus a bounded-preemption enumeration for the two-committer families
+        two = [OPSETS[0], OPSETS[2]] if quick else OPSETS
+        for fam in FORK_FAMILIES[2]:
+            for ops in (two[:1] if fam["handles"] == "own" else two):
+                case = {"ops": ops, "clock": "tick", "topology": "shared", "procs": [[], [0, 1]], "fork": fam}
+                for sc_ in contention_scripts(2, stops):
+                    res = _run(ctx, case, script_chooser(sc_), tag="c01f")
+                    runs.append((case, [("script", sc_)], res))
+        for fam in FORK_FAMILIES[3]:
+            case = {"ops": hand[1], "clock": "tick", "topology": "shared", "procs": [[], [0, 1, 2]], "fork": fam}
+            for sc_ in contention_scripts(3, stops[:1] if quick else stops):
+                res = _run(ctx, case, script_chooser(sc_), tag="c01f")
+                runs.append((case, [("script", sc_)], res))
+        for fam in FORK_FAMILIES[2][:2]:
+            case = {"ops": OPSETS[1], "clock": "frozen", "topology": "shared", "procs": [[], [0, 1]], "fork": fam}
+            for dev, res in explore(ctx, case, 2, 6 if quick else 40):
+                runs.append((case, dev, res))
         # 5b. two committers in two processes (and both in one worker process): bounded-preemption enumeration
         for ops in (OPSETS[:4] if quick else OPSETS):
             for procs in PROC_TOPOLOGIES[2][:1 if quick else 2]:
@@ -664,7 +771,11 @@ def run(ctx) -> None:
         _close_pool()
     _mark("process-topology schedules")
     ctx.stats["process_topology_schedules"] = sum(1 for c, _d, _r in runs if c.get("procs") is not None)
-    ctx.stats["process_topologies"] = sorted({repr(c["procs"]) + "/" + c.get("topology", "separate") for c, _d, _r in runs if c.get("procs") is not None})
+    ctx.stats["process_topologies"] = sorted({repr(c["procs"]) + "/" + c.get("topology", "separate") for c, _d, _r in runs
+                                              if c.get("procs") is not None and not c.get("fork")})
+    ctx.stats["fork_family_schedules"] = sum(1 for c, _d, _r in runs if c.get("fork"))
+    ctx.stats["fork_families"] = sorted({_where(c) for c, _d, _r in runs if c.get("fork")})
+    ctx.stats["workers_forked"] = sum(1 for _c, _d, r in runs for e in getattr(r, "locklog", []) if e["prim"] == "fork")
     harness_trouble = [r.deadlock for _c, _d, r in runs if r.deadlock and r.deadlock.startswith("harness:")]
     if harness_trouble:
         ctx.proof_problems.append("process-topology harness: " + harness_trouble[0][:600])
